@@ -65,4 +65,30 @@ theorem span_spec (p : Char → Bool) (inp : List Char) :
     · have hc' : p c = false := by simpa using hc
       simp [span, hc', stops]
 
+/-! whole-input lexing of a single item -/
+
+theorem lexMany_nil (n : Nat) : lexMany n [] = .ok [] [] := by cases n <;> rfl
+
+theorem lexMany_single (k : Nat) (inp : List Char) (t : Tok.Token) (hne : inp ≠ [])
+    (h : lexItem inp = .ok t []) : lexMany (k + 1) inp = .ok [t] [] := by
+  have hl : ([] : List Char).length < inp.length := by
+    cases inp with
+    | nil => exact absurd rfl hne
+    | cons c cs => simp
+  simp only [lexMany, h, hl, if_true, lexMany_nil]
+
+theorem lexMany_fail (k : Nat) (inp : List Char) (h : lexItem inp = .failure) :
+    lexMany (k + 1) inp = .failure := by
+  simp only [lexMany, h]
+
+/-- `lex` of an input that is exactly one item -/
+theorem lex_single (inp : List Char) (t : Tok.Token) (hne : inp ≠ []) (h : lexItem inp = .ok t []) :
+    lex inp = some [t] := by
+  cases inp with
+  | nil => exact absurd rfl hne
+  | cons c cs =>
+    simp only [lex, List.length_cons]
+    rw [lexMany_single _ _ _ (by simp) h]
+    rfl
+
 end QV.Lex
